@@ -145,7 +145,7 @@ _claim('C15',
        "C15.R1 comparator table by folding the parser's path conditions for 6 operators x 3 literal prefixes; C15.R2 "
        "conjunction with the metric on the left; C15.R3 subset / chain counters; C15.R4 every metric store is guarded or "
        "of cycle-level provenance; C15.R5 cache precondition (all-cycles unmasked vector, gap-free by C12.R1) and the "
-       "cache's own boundaries; metric values are not modified in place; C15.R6 recomputation on every pick; C15.R7 the label route and the slice-cache route delimit the augmented cycle identically (sibling agreement by substitution); C15.R8 possibly-None extents never index the values unguarded; C15.R9 per mode x cache state the stored metric is the matching support routine on (vals, own labels or the cache known to be present, func), chain metrics are the per-chain statistic on the own vectors projected onto cycles with NaN -> -1 before an integer cast, chain_ind / chain_position number chains and members from 0; C15.R10 every attribute a method reads is bound on every constructor path before the first method call needing it.",
+       "cache's own boundaries; metric values are not modified in place; C15.R6 recomputation on every pick; C15.R7 the label route and the slice-cache route delimit the augmented cycle identically (sibling agreement by substitution); C15.R8 possibly-None extents never index the values unguarded; C15.R9 per mode x cache state the stored metric is the matching support routine on (vals, own labels or the cache known to be present, func), chain metrics are the per-chain statistic on the own vectors projected onto cycles with NaN -> -1 before an integer cast, chain_ind / chain_position number chains and members from 0; C15.R10 every attribute a method reads is bound on every constructor path before the first method call needing it; C15.R11 the tabular export is built from the metric store and drops exactly the rows not matching the conditions in force.",
        "equality of arbitrary user functions under cache on/off; the full operation-history quantifier beyond 'each "
        "operation preserves the store invariant'.",
        "partial evaluation of path conditions on concrete strings + counter relations + C12 cover rule")
@@ -160,8 +160,8 @@ _claim('C16',
 _claim('C17',
        "C17.R1 the occurrence lookup returns index sets in the row space of its argument (a sorted copy has a different "
        "index space); C17.R2 provenance and range guard of every final assignment, x/y index lists equal by "
-       "construction, K and the distance bound reach the query; C17.R1 also interprets the return term of _unique_inds on every weak ordering of up to 4 (thorough 5) values: the distinct values, each with exactly its positions; C17.R3 one claimant per candidate and neighbour column (one position among the occurrences, not an equality test on the minimum); C17.R4 a claimant is marked only if its candidate is a member of the column's candidates not matched in an earlier column, that record is extended in every column, the assignment vector is integer typed.",
-       "global injectivity of the greedy column-by-column assignment; K=1 (scipy returns 1-D arrays).",
+       "construction, K and the distance bound reach the query; C17.R1 also interprets the return term of _unique_inds on every weak ordering of up to 4 (thorough 5) values: the distinct values, each with exactly its positions; C17.R3 one claimant per candidate and neighbour column (one position among the occurrences, not an equality test on the minimum); C17.R4 a claimant is marked only if its candidate is a member of the column's candidates not matched in an earlier column, that record is extended in every column with exactly the rows marked, the assignment vector is integer typed.",
+       "K=1 (scipy returns 1-D arrays); global injectivity is derived by composition of R2-R4, not by a single rule; scipy's cKDTree.query is trusted to honour k and the distance bound.",
        "index-space typing + path conditions of the assignment stores + exhaustive order-pattern interpretation of the lookup routine")
 _claim('C19',
        "C19.R1 the three ensure_* routines folded on 11 representative shapes against their documented contract, every returned array is its own input through layout-only operations; "
